@@ -29,7 +29,8 @@ RULE = ('case = (scenario, fault kind, fault point[, recv size]); distinct = sam
         'lies strictly inside the conversation (not before its first byte)')
 ASSUMPTIONS = ['ARTIM = 10 s as in the library; peer silence is modelled by advancing the virtual clock by 11 s']
 REQUIRED = ['oracle.disconnect-ends-idle-closed', 'oracle.silence', 'oracle.stop-returns', 'oracle.user-told',
-            'oracle.kill-returns', 'oracle.stale-user-primitive', 'oracle.connect-failure']
+            'oracle.kill-returns', 'oracle.stale-user-primitive', 'oracle.connect-failure',
+            'oracle.talkative-peer-that-never-closes']
 
 
 def exhaustive(tier):
@@ -39,13 +40,14 @@ def exhaustive(tier):
 def plan(tier, seed):
     specs = []
     for name in convo.corpus():
-        for kind in ('close', 'reset', 'silence', 'stop'):
-            recvs = [65536] if tier == 'quick' or kind in ('silence', 'stop') else [65536, 16, 7]
+        for kind in ('close', 'reset', 'silence', 'stop', 'chatter'):
+            recvs = [65536] if tier == 'quick' or kind in ('silence', 'stop', 'chatter') else [65536, 16, 7]
             for recv in recvs:
                 specs.append({'name': name, 'kind': kind, 'recv': recv})
     specs.append({'name': 'kill-threads', 'kind': 'kill'})
     specs.append({'name': 'stale-user', 'kind': 'stale'})
     specs.append({'name': 'send-fails', 'kind': 'send-fails'})
+    specs.append({'name': 'big-request', 'kind': 'big-request'})
     return specs
 
 
@@ -98,8 +100,54 @@ def stale_cases(res):
                                           case)
 
 
+def big_request_cases(res):
+    """An A-ASSOCIATE-RQ of about 70 KB (120 presentation contexts with 8 long transfer syntaxes each): longer
+    than any read buffer and than the entity's own maximum length (which only limits P-DATA-TF).  The
+    association is then released / aborted locally with a peer that never closes / cut at the end."""
+    from . import fixtures as F, refcodec as R
+    ctxs = tuple((2 * k + 1, F.CT_STORAGE, tuple(b'1.2.826.0.1.3680043.9.7433.%d.%d.' % (k, j) + b'7' * 30
+                                                 for j in range(8))) for k in range(120))
+    big = R.build_pdu(F.assoc_rq_tree(contexts=ctxs))
+    endings = {
+        'released': [('user', 'uAC'), ('peer', [F.PEER['pRELRQ']]), ('user', 'uRELRP'), ('close',), ('time', 11.0)],
+        'rejected-peer-stays': [('user', 'uRJ'), ('time', 11.0)],
+        'aborted-peer-stays': [('user', 'uAC'), ('user', 'uABORT'), ('time', 11.0)],
+        'peer-goes-away': [('close',), ('time', 11.0)],
+    }
+    for recv in (65536, 16384, 4096):
+        for name, tail in endings.items():
+            for seg in (None, 30000):
+                case = {'kind': 'big-request', 'ending': name, 'recv': recv, 'segment': seg}
+                first = [('peer', [big])] if seg is None else \
+                    [('peer', [big[k:k + seg]]) for k in range(0, len(big), seg)]
+                sim = simnet.Sim('acceptor', convo.build_script('acceptor', first + tail, mode='whole'),
+                                 max_pdu_length=recv)
+                sim.run()
+                res.evaluations += 1
+                res.distinct.add('big-request|%s|%d|%s' % (name, recv, seg))
+                res.count('oracle.big-request')
+                where = 'A-ASSOCIATE-RQ of %d bytes (maximum length %d, segments of %s), then %s' % (
+                    len(big), recv, seg, name)
+                kinds = [i[0] for i in sim.indications]
+                if sim.outcome != 'end-of-script':
+                    key = {'raised': 'loop-died', 'blocked': 'blocking-recv',
+                           'budget': 'spinning'}.get(sim.outcome, 'run-' + str(sim.outcome))
+                    res.violation('%s:big-request' % key, 'C13.termination', '%s: run() %s: %s (state Sta%d)' % (
+                        where, sim.outcome, sim.error, sim.state() + 1), case)
+                elif sim.state() != 0 or not sim.all_closed():
+                    res.violation('not-idle-closed:big-request', 'C13.final-state',
+                                  '%s: final state Sta%d, closed=%r' % (where, sim.state() + 1, sim.all_closed()),
+                                  case)
+                elif kinds[:1] != ['A-ASSOCIATE-RQ']:
+                    res.violation('valid-request-not-indicated:big-request', 'C13.user-told',
+                                  '%s: indications %r' % (where, kinds), case)
+
+
 def run_shard(spec, tier, seed):
     res = Result()
+    if spec['kind'] == 'big-request':
+        big_request_cases(res)
+        return res
     if spec['kind'] == 'kill':
         return kill_threads(res, tier, seed)
     if spec['kind'] == 'stale':
@@ -132,6 +180,9 @@ def run_shard(spec, tier, seed):
 
 def replay(case):
     res = Result()
+    if case.get('kind') == 'big-request':
+        big_request_cases(res)
+        return res
     if case.get('kind') == 'kill':
         return kill_one(res, case)
     if case.get('kind') == 'stale':
@@ -179,6 +230,12 @@ def run_case(res, case, verbose=False):
         tail = [(kind,), ('time', 11.0), ('time', 11.0)]
     elif kind == 'silence':
         tail = [('time', 11.0)]
+    elif kind == 'chatter':
+        # the peer does not close but keeps talking: something arrives every 4 s, for 12 s
+        from . import fixtures as F
+        second = ['pDATA', 'pUNK', 'pRQ', 'pRELRQ'][(point[0] + len(steps)) % 4]
+        tail = [('time', 4.0), ('peer', [F.PEER['pDATA']]), ('time', 4.0), ('peer', [F.PEER[second]]),
+                ('time', 4.0)]
     else:
         tail = [('stop',)]
     script = convo.build_script(role, part + tail)
@@ -236,6 +293,18 @@ def run_case(res, case, verbose=False):
                                   'wire %r ind %r' % (where, st, sim.state() + 1, sim.all_closed(),
                                                       sim.wire[prev['wire_n']:],
                                                       sim.indications[prev['ind_n']:]), case)
+    elif kind == 'chatter':
+        # judged where the provider was waiting for the peer to close (Sta13) when the chatter began:
+        # ARTIM bounds that wait whatever the peer sends meanwhile
+        n_tail = 5
+        before = sim.trace[:-n_tail] if len(sim.trace) >= n_tail else []
+        prev = before[-1] if before else None
+        if prev is not None and prev['state'] + 1 == 13:
+            res.count('oracle.talkative-peer-that-never-closes')
+            if sim.state() != 0 or not sim.all_closed():
+                res.violation('artim-does-not-bound-the-wait:talkative-peer', 'C13.silence',
+                              '%s: peer keeps sending in Sta13 for 12 s without closing, final Sta%d closed=%r' % (
+                                  where, sim.state() + 1, sim.all_closed()), case)
     else:
         res.count('oracle.stop-returns')
         if not sim.kill_returns():
